@@ -9,9 +9,11 @@
                     after the RLE loader has validated and counted its segment
    The inner column is `Column<i64>` (non-nullable T) or `Column<Option<i64>>`; [lo],[hi]
    are T::MIN_I64 / T::MAX_I64 (i64: the whole range; u64: 0 .. i64::MAX).
-   Events per segment, in Rust order: parse, validate, count (Panic on usize overflow),
-   accumulate (Err on i64 overflow).  At the end: flush, sum of slab lens (Panic), domain
-   check per slab (Err). *)
+   Events per segment, in Rust order: parse, validate, count (saturating), accumulate
+   (Err on i64 overflow and, as of /repo 1187ab90a, on `w.len.checked_add(count)`;
+   `cur_emitted` in ColumnLoadIter::attribute saturates like the slab length).  At the end:
+   flush, checked sum of slab lens (Err), domain check per slab (Err).  No partial operation
+   is left: the loader returns Ok or Err. *)
 From AM Require Import Base.Prelude Base.Leb128 Hexane.Hleb Hexane.Rle.
 Local Open Scope N_scope.
 
@@ -19,27 +21,30 @@ Local Open Scope N_scope.
 Record agg := mk_agg { a_len : N; a_total : Z; a_min : Z; a_max : Z }.
 Definition agg0 : agg := mk_agg 0 0 0 0.
 
-(* IndexedDeltaWeightFn::accumulate_run; None = Err("delta running sum overflows i64") *)
-Definition accumulate (w : agg) (count : N) (x : option Z) : option agg :=
+(* IndexedDeltaWeightFn::accumulate_run; Err = "delta running sum overflows i64" or
+   `w.len.checked_add(count)` = None *)
+Definition accumulate (w : agg) (count : N) (x : option Z) : res agg :=
   match x with
   | None =>
-      if a_len w =? 0 then Some (mk_agg (a_len w + count) (a_total w) 0 0)
-      else Some (mk_agg (a_len w + count) (a_total w)
-                        (Z.min (a_min w) (a_total w)) (Z.max (a_max w) (a_total w)))
+      if pow64 <=? a_len w + count then Err
+      else if a_len w =? 0 then Ok (mk_agg (a_len w + count) (a_total w) 0 0)
+      else Ok (mk_agg (a_len w + count) (a_total w)
+                      (Z.min (a_min w) (a_total w)) (Z.max (a_max w) (a_total w)))
   | Some v =>
-      if pow63 <=? count then None                      (* i64::try_from(count) *)
+      if pow63 <=? count then Err                       (* i64::try_from(count) *)
       else
         let stp := (v * Z.of_N count)%Z in
-        if negb (in_i64b stp) then None
+        if negb (in_i64b stp) then Err
         else
           let first := (a_total w + v)%Z in
           let last := (a_total w + stp)%Z in
-          if negb (in_i64b first) || negb (in_i64b last) then None
+          if negb (in_i64b first) || negb (in_i64b last) then Err
           else
             let lo := Z.min first last in
             let hi := Z.max first last in
-            if a_len w =? 0 then Some (mk_agg (a_len w + count) last lo hi)
-            else Some (mk_agg (a_len w + count) last (Z.min (a_min w) lo) (Z.max (a_max w) hi))
+            if pow64 <=? a_len w + count then Err
+            else if a_len w =? 0 then Ok (mk_agg (a_len w + count) last lo hi)
+            else Ok (mk_agg (a_len w + count) last (Z.min (a_min w) lo) (Z.max (a_max w) hi))
   end.
 
 Section Delta.
@@ -55,15 +60,11 @@ Section Delta.
     match s with
     | RHead _ => Ok (c', w, ws)
     | RLit v | RRun _ v =>
-        match accumulate w (seg_items Z s) (Some v) with
-        | None => Err
-        | Some w' => if c_segs Z c' =? 0 then Ok (c', agg0, w' :: ws) else Ok (c', w', ws)
-        end
+        let* w' := accumulate w (seg_items Z s) (Some v) in
+        if c_segs Z c' =? 0 then Ok (c', agg0, w' :: ws) else Ok (c', w', ws)
     | RNull n =>
-        match accumulate w n None with
-        | None => Err
-        | Some w' => if c_segs Z c' =? 0 then Ok (c', agg0, w' :: ws) else Ok (c', w', ws)
-        end
+        let* w' := accumulate w n None in
+        if c_segs Z c' =? 0 then Ok (c', agg0, w' :: ws) else Ok (c', w', ws)
     end.
 
   Fixpoint dcheck (st : dst) (ss : list (rseg Z)) : res dst :=
@@ -94,7 +95,6 @@ Section Delta.
     match t with
     | TEnd => dfinish st
     | TErr => Err
-    | TPanic => Panic
     end.
 
   (* DeltaColumn::<T>::load: the run list of the stored deltas *)
